@@ -605,6 +605,8 @@ class Model(object):
         while i < len(items):
             it = items[i]
             if it == PASTE:
+                if cur is None or i + 1 >= len(items) or items[i + 1] == PASTE:
+                    raise Invalid("misplaced ##")
                 rhs = [t for t in items[i + 1] if t.k != "pm"]
                 lhs = [t for t in cur if t.k != "pm"]
                 self.f.add("paste")
